@@ -181,9 +181,25 @@ func c18Writer(r *eng.Run, mode int) {
 		p2 = p1
 	case 2:
 		wsutil.PutWriter(w)
-		reused = wsutil.GetWriter(p2, cfg2.State(), ws.OpCode(cfg2.Op), cfg1.Size)
+		// The next user asks for the same size, or for one of the next class.
+		n2 := cfg1.Size
+		if poolable {
+			n2 = []int{cfg1.Size, cfg1.Size - 1, cfg1.Size + 1, 2 * cfg1.Size, cfg1.Size/2 + 1}[r.T.Int(sim.LSize, 5)]
+		}
+		reused = wsutil.GetWriter(p2, cfg2.State(), ws.OpCode(cfg2.Op), n2)
 		if reused == w {
 			r.Probe("pool_returned_same_writer")
+		}
+		// "It ceils n to the power of two": whatever comes back offers at
+		// least the room of a writer built on a buffer of that class.
+		class := 128
+		for class < n2 {
+			class <<= 1
+		}
+		// (Below the pool's smallest class GetWriter builds a writer on a
+		// buffer of exactly n bytes.)
+		if floor := wsutil.NewWriterBufferSize(io.Discard, cfg2.State(), ws.OpCode(cfg2.Op), class).Size(); n2 >= 128 && class <= 65536 && reused.Size() < floor {
+			r.Failf("reset_differs_from_new", "GetWriter(n=%d) after a PutWriter returned a writer with Size()=%d; a new one for that class (%d) has %d", n2, reused.Size(), class, floor)
 		}
 		_ = poolable
 		applyOptions(reused, cfg2)
